@@ -773,7 +773,8 @@ namespace occa {
       // Make sure that the macro starts with a '('
       token_t *nextToken = NULL;
       (*this) >> nextToken;
-      if (nextToken->getOpType() & operatorType::parenthesesStart) {
+      // The remaining input might not produce any token
+      if (token_t::safeOperatorType(nextToken) & operatorType::parenthesesStart) {
         expandMacro(token, *macro);
         delete &token;
         delete nextToken;
